@@ -6,6 +6,9 @@ import os
 V = os.path.dirname(os.path.dirname(os.path.abspath(__file__)))
 
 CHECKS = {
+    "C17": dict(cat="model_checking", ref="§3.8, §4 C17", tech="TLA+ Buf.tla (byte model of one buffer with a family of aliasing views) model-checked by TLC; every transition replayed on a Go-supplied guard-byte-surrounded buffer with a bounds monitor hooked into the raw element access sites",
+                text="Buf.tla models the bytes of one ArrayBuffer, its detached flag and ten views of eight element kinds at different offsets plus a DataView; each action is one method call (element get/set with modular / clamped conversion, fill, copyWithin, reverse, sort, slice, subarray, set from another view of the same buffer and from an array, filter, Array.from, DataView 8/16-bit accessors at every offset and both endiannesses, ArrayBuffer.slice, detach, and twelve operations during which an argument coercion or callback detaches the buffer). TLC checks that no operation changes a byte outside its view's window (Window, DvWindow) and enumerates every behaviour of two operations; each transition is replayed on the real engine over a backing slice supplied by Go inside a slab of guard bytes: result, all bytes as seen through ArrayBuffer.Bytes(), guard bytes and every view's byteOffset/length are compared, and the ptr() bounds monitor (hook commit 3a32012) panics before any access outside the current buffer.",
+                note="Trusts TLC, harness/adaptors/buf.js and the natives. 32- and 64-bit element kinds are covered as byte movers only (TLC integers are 32-bit); float rounding and BigInt conversion are not covered. For detach-during-operation the oracle is 'no access outside the buffer, then throw or treat as empty', not the exact result."),
     "C01": dict(cat="exploration", ref="§4 C01", tech="acceptance criterion taken from the TLA+ trace specification VMTrace.tla (ApiExit rule: documented outcome classes, idle registers) applied to generated source texts; TLC validates the recorded VM traces of the seed corpus",
                 text="Every generated source text is handed to RunString (sloppy), Compile(strict)+RunProgram, a function wrapper and eval; the run must return a value or an error of a documented kind (Exception, CompilerSyntaxError, CompilerReferenceError, InterruptedError, StackOverflowError), no Go panic and no 'Compiler bug'/'BUG'/'Internal bug' diagnostic may escape, and the Runtime's registers must be idle afterwards (the ApiExit / Idle rule of VMTrace.tla evaluated through the white-box accessor). Sources: all token sequences up to length 3 over a 71-token alphabet plus sampled longer ones, token-level mutations (delete, duplicate, swap, replace, insert, truncate, move) of a seed corpus covering the supported syntax plus generated MiniJS programs, nesting bombs to depth 200 and random byte strings. Workers run in child processes with an address-space limit and a journal, so a fatal runtime error is attributed to its input. The VM traces of the seed corpus are validated by TLC against VMTrace.tla.",
                 note="The specification supplies the acceptance criterion, not the inputs: inputs no generator produces are not covered (no coverage-guided fuzzing in this technique family). Trusts the Go driver harness/cmd/c01run."),
